@@ -182,6 +182,46 @@ def rule_iocheck(ctx, fx, config):
             from ..rules import local_uses
             ctx.check(bool(local_uses(f, t0["dest"]["l"])), "IOCHECK", "C10:IOCHECK:%s:propagated" % name, "the check's result is propagated",
                       "the result of io_error() is ignored in %s" % name, config, ctx.where(f))
+    # TAKE-ONCE: io_error() *takes* the stored error out of the cell.  The single-document entries drop the error of their
+    # final peek() once the document-end marker was seen (trailing garbage) and rely on finish() to find a stored I/O error;
+    # so within one pump call nothing may take the error after seen_doc_end was set.
+    le = [f for f in fx.fns.values() if f.d.get("impl_adt") == "live_events::LiveEvents" or f.npath.startswith("<live_events::LiveEvents as ")]
+    le += [c for f in list(le) for c in fx.closures_of(f)]
+    byname = {f.npath: f for f in le}
+
+    def direct_set(f, b):
+        for s_ in f.blocks[b]["stmts"]:
+            if s_["k"] == "assign" and s_["p"]["pr"] and render(f.sym_place(s_["p"])) == "self.seen_doc_end" and f.sym_rvalue(s_["rv"]) == ("const", True, "bool"):
+                return True
+        return False
+    sets = {f.npath for f in le if any(direct_set(f, b) for b in f.live_blocks)}
+    takers = {IOERR}
+    changed = True
+    while changed:
+        changed = False
+        for f in le:
+            cs = {fx.callee(t) for b, t in f.calls()}
+            if f.npath not in sets and cs & sets:
+                sets.add(f.npath); changed = True
+            if f.npath not in takers and cs & takers:
+                takers.add(f.npath); changed = True
+    ctx.check(bool(sets) and proto.PEEK in sets, "IOCHECK", "C10:IOCHECK:take-once:anchor", "seen_doc_end is set inside the pump (%d functions may set it)" % len(sets), "cannot find where seen_doc_end is set", config, None)
+    nchk = 0
+    for f in le:
+        setb = [b for b in f.live_blocks if direct_set(f, b)] + [b for b, t in f.calls() if fx.callee(t) in sets]
+        takeb = [b for b, t in f.calls() if fx.callee(t) in takers]
+        if not setb or not takeb:
+            continue
+        nchk += 1
+        after = set()
+        for b in setb:
+            t = f.blocks[b]["term"]
+            after |= f.reachable(f.succ[b])
+        leak = sorted(b for b in takeb if b in after)
+        ctx.check(not leak, "IOCHECK", "C10:IOCHECK:take-once:%s" % f.npath, "the stored I/O error is never taken after the document-end marker was recorded in the same call",
+                  "%s can take the stored I/O error (line(s) %s) after seen_doc_end was set: the entry points drop the error of that peek() as trailing garbage and finish() no longer finds it — a reader failure is reported as success" %
+                  (f.npath, sorted({f.blocks[b]["term"].get("ln") for b in leak})), config, ctx.where(f, leak[0] if leak else None))
+    ctx.floor("IOCHECK.take-once.functions", nchk, 1, config)
     g = fx.fn(IOERR)
     ctx.saw(g)
     takes = [b for b, t in g.calls() if fx.callee(t) in ("std::cell::RefCell::take", "std::cell::RefCell::replace", "std::cell::RefCell::borrow_mut", "std::cell::RefCell::borrow")]
